@@ -32,6 +32,19 @@ fn child() {
         "main" => divan::main(),
         "list_benches" => divan::Divan::from_args().list_benches(),
         "test_benches" => divan::Divan::from_args().test_benches(),
+        // k concurrent runs in one process: threads released by a barrier, each `Divan::default().test_benches()`
+        "concurrent_runs" => {
+            let k: usize = std::env::var("HX_K").ok().and_then(|s| s.parse().ok()).unwrap_or(3);
+            let barrier = std::sync::Barrier::new(k);
+            std::thread::scope(|s| {
+                for _ in 0..k {
+                    s.spawn(|| {
+                        barrier.wait();
+                        divan::Divan::default().test_benches();
+                    });
+                }
+            });
+        }
         // the builder's `threads` with an empty list: still one run per case
         "main_threads_empty" => divan::Divan::from_args().threads(std::iter::empty::<usize>()).main(),
         // the case's thread counts through the builder instead of --threads
@@ -66,6 +79,8 @@ struct ChildOut {
 thread_local! {
     /// The executable the current case runs (None: this binary with the synthetic registry).
     static EXE: std::cell::RefCell<Option<String>> = const { std::cell::RefCell::new(None) };
+    /// Milliseconds every argument expression sleeps in the next child (0: not slowed down).
+    static SLOW_ARGS: std::cell::Cell<u64> = const { std::cell::Cell::new(0) };
     /// The run-time thread counts of the current case.
     static THREADS: std::cell::RefCell<Vec<usize>> = const { std::cell::RefCell::new(Vec::new()) };
 }
@@ -81,6 +96,7 @@ fn run_child(line: &str, api: &str, nextest: bool, args: &[String]) -> ChildOut 
         .env("HX_CHILD", "1")
         .env("HX_SPEC", line)
         .env("HX_API", api)
+        .env("HX_K", "3")
         .env("HX_THREADS", THREADS.with(|t| t.borrow().iter().map(|n| n.to_string()).collect::<Vec<_>>().join(",")))
         .env_remove("NEXTEST")
         .stdin(Stdio::null())
@@ -93,6 +109,10 @@ fn run_child(line: &str, api: &str, nextest: bool, args: &[String]) -> ChildOut 
     }
     if nextest {
         cmd.env("NEXTEST", "1");
+    }
+    cmd.env_remove("HX_SLOW_ARGS");
+    if SLOW_ARGS.with(|s| s.get()) > 0 {
+        cmd.env("HX_SLOW_ARGS", SLOW_ARGS.with(|s| s.get()).to_string());
     }
     let mut ch = cmd.spawn().expect("spawn");
     let mut so = ch.stdout.take().unwrap();
@@ -366,6 +386,20 @@ fn run_case(line: &str) -> String {
             ),
             'L' => canon_tree(&run_child(line, "main", false, &with(cli_args(&sp, None, false), &["--list"])), false),
             'K' => String::new(),
+            // three concurrent `test_benches()` runs in one process, argument expressions slowed down:
+            // the (sorted) calls of all runs and the evaluation count of every argument list
+            'x' => {
+                SLOW_ARGS.with(|s| s.set(if sp.cfg.exe.is_some() { 40 } else { 150 }));
+                let o = run_child(line, "concurrent_runs", false, &[]);
+                SLOW_ARGS.with(|s| s.set(0));
+                let mut calls: Vec<&String> = o.log.iter().filter(|e| e.starts_with('C')).collect();
+                calls.sort();
+                let mut s = format!("{}!{}", calls.iter().map(|c| c.as_str()).collect::<Vec<_>>().join(";"), o.made);
+                if o.status != "ok" {
+                    s.push_str(&format!("!{}", o.status));
+                }
+                s
+            }
             // test run with the case's thread counts set through `Divan::threads`
             'p' => {
                 BUILDER_THREADS.with(|b| b.set(true));
